@@ -64,6 +64,15 @@ def readU32 (site : String) (b : Bytes) : Outcome Nat :=
 def readU64 (site : String) (b : Bytes) : Outcome Nat :=
   if b.length < 8 then .panic site else .ok (le64 b)
 
+/-- checked reads (`buf.get(0..4).map(read_u32)`): an error, never a panic -/
+def readU32E (b : Bytes) : Outcome Nat :=
+  if b.length < 4 then .err .integrity else .ok (le32 b)
+def readU64E (b : Bytes) : Outcome Nat :=
+  if b.length < 8 then .err .integrity else .ok (le64 b)
+/-- `data.get(a..b).ok_or(..)` -/
+def sliceE (d : Bytes) (a b : Nat) : Outcome Bytes :=
+  if a ≤ b ∧ b ≤ d.length then .ok ((d.drop a).take (b - a)) else .err .integrity
+
 /-- `&data[a..b]`: panics unless `a ≤ b ≤ data.len()` -/
 def slice (site : String) (d : Bytes) (a b : Nat) : Outcome Bytes :=
   if a ≤ b ∧ b ≤ d.length then .ok ((d.drop a).take (b - a)) else .panic site
